@@ -297,12 +297,29 @@ def random_histories(res, ctx, rng):
         res.count('random_histories')
 
 
+def long_windows(res, ctx, rng):
+    """Windows holding hundreds to thousands of same-thread events (a long-running call)."""
+    inv = H.inventory()
+    for _ in range(ctx.pick(6, 60)):
+        outer = rng.choice(inv['bsd'])
+        inner_codes = rng.sample(inv['decodable'], 3) + rng.sample(inv['undecoded_sample'], 1) + ['TRACE_DATA_EXEC']
+        n = rng.choice((255, 256, 257, 300, 1000, 2500))
+        history = [mk_event(rng, 1000, outer, 1, 5)]
+        for i in range(n):
+            code = rng.choice(inner_codes)
+            history.append(mk_event(rng, 1007 + 7 * i, code, rng.choice((0, 0, 3, 1, 2)), rng.choice((5, 5, 5, 6))))
+        history.append(mk_event(rng, 1007 + 7 * n, outer, 2, 5))
+        check_history(res, history, f'long window ({n} events)')
+        res.count('long_window_histories')
+
+
 def run(ctx):
     install_invariant()
     res = core.Result()
     rng = ctx.rng
     small_scope(res, ctx, rng)
     random_histories(res, ctx, rng)
+    long_windows(res, ctx, rng)
     res.count('invariant_evaluations', InvariantLog.evaluations)
     res.notes['invariant_backend'] = 'icontract.invariant on TracesParser' if monitors.HAVE_ICONTRACT else 'absent'
     for f in InvariantLog.failures:
@@ -318,7 +335,7 @@ def run(ctx):
                         'words are in-domain so that the real decoders are total on the windows they receive']
     for cls in ('class_unmatched_end', 'class_reopened_start', 'class_nested', 'class_crossing',
                 'class_same_code_two_threads', 'class_both_domains_open', 'class_qualifier_all', 'windows_checked',
-                'singles_checked'):
+                'singles_checked', 'long_window_histories'):
         res.require(cls)
     if monitors.HAVE_ICONTRACT:
         res.require('invariant_evaluations')
